@@ -3,6 +3,7 @@ import HdVerif.Model.PixelPipeline
 import HdVerif.Generated.T6g
 import HdVerif.Generated.T6i
 import HdVerif.Generated.T6p
+import HdVerif.Generated.T6r
 open Lean HdVerif HdVerif.Drv HdVerif.Gen HdVerif.PixelPipeline
 
 def getTri (v : Json) : Except String Tri :=
@@ -116,6 +117,10 @@ def handlers : List (String × Handler) := [
       (← getInt j "rmax") (← getStr j "out_kind") (← getStr j "in_kind") (← getInt j "out_max") (← getInt j "out_min")
       (← getInt j "in_max") (← getInt j "in_min")
     pure (exceptToJson (fun (b : Bool) => Json.bool b) r)),
+  ("inputType", fun j => do
+    let r := inputType (← getBool j "is_pmap") (← getInt j "bits_allocated") (← getInt j "pixel_representation") (← getInt j "bits_stored")
+    pure (exceptToJson (fun (p : Int × Bool × Int × Int) =>
+      Json.mkObj [("dtype", (p.1 : Json)), ("has_range", Json.bool p.2.1), ("lo", (p.2.2.1 : Json)), ("hi", (p.2.2.2 : Json))]) r)),
   ("outputRules", fun j => do
     let r := outputRules (← getBool j "has_lut") (← getBool j "has_cm") (← getBool j "lut_dtype_differs") (← getBool j "in_float")
       (← getBool j "has_si") (← getBool j "si_identity") (← getBool j "has_window") (← getStr j "out_kind") (← getStr j "in_kind")
